@@ -477,6 +477,22 @@ func (x *Exec) checkCmdPre(st *State, c *callCtx, cs *CmdSpec, cmd TV) {
 		x.oblige(st, "requires", fmt.Sprintf("store command %s precondition: %s", cs.Kind, cl.Text), t, c.common.Pos(), x.assertProps)
 		st.assume(t)
 	}
+	// "submit-requires e": a precondition on the command that only the submitting coroutine can be held to (it
+	// speaks about the coroutine's clock, now0() <= ... <= now()); checked where the command is submitted, not
+	// assumed in the handler's own unit
+	for _, d := range ct.Directives["submit-requires"] {
+		props := x.assertProps
+		if m := tagRe.FindStringSubmatch(d); m != nil {
+			props = strings.FieldsFunc(m[1], func(r rune) bool { return r == ' ' || r == ',' })
+			d = d[len(m[0]):]
+		}
+		t, err := env.EvalBool(d)
+		if err != nil {
+			x.unsupported(st, err.Error())
+			return
+		}
+		x.oblige(st, "requires", fmt.Sprintf("store command %s precondition at submission: %s", cs.Kind, d), t, c.common.Pos(), props)
+	}
 }
 
 func handlerKey(pkg, recv, kind string) string {
